@@ -32,13 +32,13 @@ fn space_for(tier: Tier) -> (Space, usize) {
     let mut s = Space::new();
     match tier {
         Tier::Quick => {
-            s.ast("GC", 5, 64).ast("K", 4, 64).ast("NEST", 6, 64).ast("CAPQ", 4, 64);
+            s.ast("GC", 5, 64).ast("K", 4, 64).ast("NEST", 6, 64).ast("CAPQ", 4, 64).ast("ALTC", 5, 64);
             s.ast_range("GCM", 1, 5, 64, 1).ast_range("GCE", 1, 3, 64, 1);
             s.list("ladder", LADDER.len() as u64, 1);
             (s, 3)
         }
         Tier::Thorough => {
-            s.ast("GC", 6, 64).ast("K", 5, 64).ast("U", 4, 64).ast("NEST", 7, 64).ast("CAPQ", 5, 64);
+            s.ast("GC", 6, 64).ast("K", 5, 64).ast("U", 4, 64).ast("NEST", 7, 64).ast("CAPQ", 5, 64).ast("ALTC", 6, 64);
             s.ast_range("GCM", 1, 5, 64, 1).ast_range("GCE", 1, 4, 64, 1);
             s.list("ladder", LADDER.len() as u64, 1);
             (s, 4)
